@@ -76,6 +76,10 @@ def _classes():
         def hit(self, x=None):
             return x
 
+        def gen(self, n):
+            for i in range(n):
+                yield i
+
         def sec(self):
             raise Pyro5.errors.SecurityError("not allowed")
 
@@ -104,7 +108,7 @@ def _classes():
 ENDINGS = ["orderly", "abort-offset", "fin-offset", "bad-magic", "oversize", "undecodable-then-close", "security", "error-then-abort", "stay-open"]
 
 conn_spec = st.fixed_dictionaries({
-    "track": st.integers(0, 3), "untrack": st.integers(0, 3), "session": st.booleans(),
+    "track": st.integers(0, 3), "untrack": st.integers(0, 3), "session": st.booleans(), "streams": st.sampled_from([0, 0, 1, 2]),
     "ending": st.sampled_from(ENDINGS + ["abort-offset", "fin-offset", "security"]),
     "offset": st.integers(0, 200), "ser": st.sampled_from(["marshal", "json", "serpent", "msgpack"]),
 })
@@ -115,11 +119,11 @@ def case_strategy(draw, timeout_shard=False):
     if timeout_shard:
         c = draw(conn_spec)
         c["ending"] = draw(st.sampled_from(["server-timeout", "server-timeout", "orderly", "abort-offset", "security", "bad-magic"]))
-        return {"conns": [c], "order": [0], "hook_raises": draw(st.integers(0, 3)) == 0}
+        return {"conns": [c], "order": [0], "hook_raises": draw(st.integers(0, 3)) == 0, "linger0": draw(st.booleans())}
     n = draw(st.integers(1, 3))
     conns = [draw(conn_spec) for _ in range(n)]
     order = draw(st.permutations(list(range(n))))
-    return {"conns": conns, "order": list(order), "hook_raises": draw(st.integers(0, 3)) == 0}
+    return {"conns": conns, "order": list(order), "hook_raises": draw(st.integers(0, 3)) == 0, "linger0": draw(st.booleans())}
 
 
 _live = {}
@@ -165,6 +169,10 @@ def run_case(case, servertype=None, commtimeout=None, keep=False):
     baseline = S.busy_workers()
     peers = []
     S.daemon.v_hook_raises = bool(case.get("hook_raises"))
+    from Pyro5 import config
+    old_linger = config.ITER_STREAM_LINGER
+    if case.get("linger0"):
+        config.ITER_STREAM_LINGER = 0.0        # item streams die with their connection (default: they linger for a reconnect)
     try:
         # ---- open all connections, do the work on them
         for i, c in enumerate(case["conns"]):
@@ -197,6 +205,11 @@ def run_case(case, servertype=None, commtimeout=None, keep=False):
                 r = call(info, "sess", "touch", token)
                 if not isinstance(r, dict) or r["flags"] & wire.F_EXCEPTION:
                     viol("harness:session", "session call failed: %r" % (r,))
+            for _ in range(c.get("streams", 0)):
+                # an item stream the client never finishes: it belongs to this connection when the connection ends
+                r = call(info, "res", "gen", 5)
+                if not isinstance(r, dict) or not any(k == "STRM" for k, _v in r["annotations"]):
+                    viol("harness:stream", "stream call failed: %r" % (r,))
             info["call"] = call
         del S.daemon.v_validated[:]
 
@@ -357,6 +370,8 @@ def run_case(case, servertype=None, commtimeout=None, keep=False):
         keep = False
     finally:
         S.daemon.v_hook_raises = False
+        config.ITER_STREAM_LINGER = old_linger
+        S.daemon.streaming_responses.clear()
         CTOR_RES.clear()
         for info in peers:
             info["peer"].close()
@@ -387,6 +402,8 @@ def _labels(case):
             l.append("has-tracked")
         if c["session"]:
             l.append("has-session")
+        if c.get("streams"):
+            l.append("has-open-stream" + (":linger0" if case.get("linger0") else ":linger"))
     return l
 
 
